@@ -181,8 +181,8 @@ func trimRaceSig(shape string) string {
 func TestTrimRaceWindows(t *testing.T) {
 	defer timed("TestTrimRaceWindows")()
 	ev.Rule(rule)
-	if os.Getenv("VERIF_SECONDARY") != "" {
-		return
+	if os.Getenv("VERIF_SECONDARY") != "" || !ev.Thorough() {
+		return // quick tier: the three cases are part of the corpus (f1, f1b, f2)
 	}
 	if !straceUsable() {
 		ev.Count("strace_unavailable_subcheck_skipped", 1)
